@@ -24,7 +24,7 @@ def main():
     for op, name in sorted(api_common.OBSERVERS_V2.items()):
         for sc in schemas:
             for mdl in ('abs_v2_one', 'abs_v2_any'):
-                jobs.append(dict(harness='h_api_v2.cpp', ll=ll, entry='h_op', params={'op': op, 'schema': sc}, models=[mdl], known=ck.known, must_reach=['call'],
+                jobs.append(dict(harness='h_api_v2.cpp', ll=ll, entry='h_op', params={'op': op, 'schema': sc, 'wide': 0, 'count': 3}, models=[mdl], known=ck.known, must_reach=['call'],
                                  hooks=('c16', 'HOOKS'), replay='none', allow_throw='none', other_property_kinds=['undef', 'oob', 'ubsan', 'fpcast', 'null', 'overflow', 'uaf', 'shift', 'div0', 'unreachable', 'badfree', 'doublefree', 'terminate', 'trap'], eng_opts={'max_paths': 3000}, label=name))
     if HAVE_V1: jobs += api_v1.jobs_c16(ck)
     ck.add_results(run_jobs(jobs))
